@@ -21,10 +21,11 @@ pub fn prop() -> Prop {
             Sub::enumerate("circles", circles),
             Sub::enumerate("ellipses", ellipses),
             Sub::enumerate("rrect_equivalences", rrect_equiv),
-            Sub::tape("rrect_random", 24, 200_000, 10_000_000, rrect_random),
-            Sub::tape("large_round", 12, 6_000, 300_000, large_round),
+            Sub::tape("confine_display_scale", 40, 2_000_000, 100_000_000, confine_display_scale),
+            Sub::tape("rrect_random", 64, 200_000, 10_000_000, rrect_random),
+            Sub::tape("large_round", 24, 6_000, 300_000, large_round),
             Sub::enumerate("sector_grid", sector_grid).with_fp(),
-            Sub::tape("sectors_random", 10, 60_000, 3_000_000, sectors_random).with_fp(),
+            Sub::tape("sectors_random", 16, 60_000, 3_000_000, sectors_random).with_fp(),
         ],
     }
 }
@@ -460,5 +461,65 @@ fn large_round(d: &mut Dec, cx: &mut Cx) -> Res {
         }
         _ => unreachable!(),
     }
+    Ok(())
+}
+
+
+/// `confine_radii()` alone (no pixels) on rectangles up to 1100 px with radii up to 1100: the sums of the
+/// radii that share a side never exceed the side, fitting radii stay as they are, confining twice changes
+/// nothing more. Half of the cases make two sides overlap by almost the same ratio.
+fn confine_display_scale(d: &mut Dec, cx: &mut Cx) -> Res {
+    let (w, h) = match d.u(0, 3) {
+        0 => (d.u(0, 40), d.u(0, 40)),
+        1 => (d.u(300, 1100), d.u(0, 40)),
+        _ => (d.u(200, 1100), d.u(200, 1100)),
+    };
+    let split = |d: &mut Dec, sum: u32| -> (u32, u32) {
+        let a = d.u(0, sum);
+        (a, sum - a)
+    };
+    let near_tie = d.bool();
+    let radii = if near_tie && w > 0 && h > 0 {
+        // overlap ratio rho = 1 + k/512 on one horizontal and one vertical side, up to a pixel
+        let k = d.u(1, 700) as u64;
+        let sum_for = |side: u32| ((side as u64 * (512 + k) + 256) / 512) as u32;
+        let (hs, vs) = ((sum_for(w) as i64 + d.i(-2, 2) as i64).max(0) as u32, (sum_for(h) as i64 + d.i(-2, 2) as i64).max(0) as u32);
+        let (a, b) = split(d, hs); // widths on one horizontal side
+        let (c, e) = split(d, vs); // heights on one vertical side
+        let (ow, oh) = (d.u(0, hs), d.u(0, vs));
+        let other_w = split(d, ow);
+        let other_h = split(d, oh);
+        match d.u(0, 3) {
+            // top + right, top + left, bottom + right, bottom + left carry the large sums
+            0 => CornerRadii { top_left: Size::new(a, other_h.0), top_right: Size::new(b, c), bottom_right: Size::new(other_w.1, e), bottom_left: Size::new(other_w.0, other_h.1) },
+            1 => CornerRadii { top_left: Size::new(a, c), top_right: Size::new(b, other_h.0), bottom_right: Size::new(other_w.1, other_h.1), bottom_left: Size::new(other_w.0, e) },
+            2 => CornerRadii { top_left: Size::new(other_w.0, other_h.0), top_right: Size::new(other_w.1, c), bottom_right: Size::new(b, e), bottom_left: Size::new(a, other_h.1) },
+            _ => CornerRadii { top_left: Size::new(other_w.0, c), top_right: Size::new(other_w.1, other_h.0), bottom_right: Size::new(b, other_h.1), bottom_left: Size::new(a, e) },
+        }
+    } else {
+        let m = if d.bool() { 1100 } else { 300 };
+        let r = |d: &mut Dec| Size::new(d.u(0, m), d.u(0, m));
+        CornerRadii { top_left: r(d), top_right: r(d), bottom_right: r(d), bottom_left: r(d) }
+    };
+    let rr = RoundedRectangle::new(Rectangle::new(gen::point(d, 40), Size::new(w, h)), radii);
+    cx.describe(|| format!("{:?}", rr));
+    cx.class(if near_tie { "two_sides_overlap_by_nearly_the_same_ratio" } else { "independent_radii" });
+    let conf = rr.confine_radii();
+    let c = conf.corners;
+    ensure!(conf.rectangle == rr.rectangle, "rounded_rectangle:confine_changes_rectangle", "confine_radii() changed the rectangle");
+    let sums_ok = |c: &CornerRadii| {
+        c.top_left.width as u64 + c.top_right.width as u64 <= w as u64
+            && c.bottom_left.width as u64 + c.bottom_right.width as u64 <= w as u64
+            && c.top_left.height as u64 + c.bottom_left.height as u64 <= h as u64
+            && c.top_right.height as u64 + c.bottom_right.height as u64 <= h as u64
+    };
+    ensure!(sums_ok(&c), "rounded_rectangle:confine_radii", "after confine_radii() the radii {:?} still add up to more than a side of {}x{}", c, w, h);
+    let fits = sums_ok(&radii);
+    if fits {
+        ensure!(c == radii, "rounded_rectangle:confine_changes_fitting_radii", "radii {:?} fit {}x{} but confine_radii() changed them to {:?}", radii, w, h, c);
+    }
+    let again = conf.confine_radii().corners;
+    ensure!(again == c, "rounded_rectangle:confine_not_idempotent", "confining the confined radii {:?} of {}x{} changes them again to {:?}", c, w, h, again);
+    cx.nontrivial(!fits && w > 0 && h > 0);
     Ok(())
 }
